@@ -2,6 +2,8 @@ SPECIFICATION Spec
 CONSTANTS
   Cap = 2
   MaxId = 4
+  Kinds = {"N", "Q"}
+  BatchSizes = {2}
   Defects = {"CountTwice"}
 VIEW View
-INVARIANTS Accounting CountMatches Bounded
+INVARIANTS Accounting CountMatches Bounded BatchSenders
